@@ -198,6 +198,7 @@ type expectation struct {
 	real      *big.Float // Duration from float seconds: exact real nanoseconds
 	realTol   bool       // accept |stored-real| < 1ns
 	truncated bool
+	rounded   bool // float target: the real value is not representable, the nearest one is expected
 	strict    bool // an error here is a "spurious error"
 }
 
@@ -205,17 +206,23 @@ func errExp(why string) expectation { return expectation{mode: mErr, why: why} }
 
 func inRange(v *big.Int, t *tkind) bool { return v.Cmp(t.min) >= 0 && v.Cmp(t.max) <= 0 }
 
-// btag names the boundary an out-of-range integer sits on.
+// btag names the boundary an out-of-range integer sits on: the first value
+// past the target's maximum (2^7 for int8, 2^64 for uint64), the 64-bit
+// intermediates 2^63 / 2^64 / -2^63-1 the conversions pass through, the value
+// just below the minimum, or simply above/below.
 func btag(v *big.Int, t *tkind) string {
-	a := new(big.Int).Abs(v)
-	if a.Sign() > 0 && a.BitLen()-1 == int(a.TrailingZeroBits()) {
-		s := ""
-		if v.Sign() < 0 {
-			s = "-"
-		}
-		return fmt.Sprintf("%s2^%d", s, a.BitLen()-1)
-	}
-	if v.Cmp(t.max) > 0 {
+	switch {
+	case v.Cmp(new(big.Int).Add(t.max, bigOne)) == 0:
+		return fmt.Sprintf("2^%d", v.BitLen()-1)
+	case v.Cmp(pow2(63)) == 0:
+		return "2^63"
+	case v.Cmp(pow2(64)) == 0:
+		return "2^64"
+	case v.Cmp(new(big.Int).Sub(t.min, bigOne)) == 0:
+		return "min-1"
+	case v.Cmp(new(big.Int).Sub(minI64b, bigOne)) == 0:
+		return "-2^63-1"
+	case v.Cmp(t.max) > 0:
 		return "above-max"
 	}
 	return "below-min"
@@ -316,12 +323,12 @@ func expectNum(n num, t *tkind) expectation {
 			bf := bigFloatOfInt(n.v)
 			w64, acc := bf.Float64()
 			if t.bits == 64 {
-				return expectation{mode: mExact, flts: []float64{w64}, strict: acc == big.Exact}
+				return expectation{mode: mExact, flts: []float64{w64}, strict: acc == big.Exact, rounded: acc != big.Exact}
 			}
-			w32, _ := bf.Float32()
+			w32, acc32 := bf.Float32()
 			// rounding once or via float64 (as Go's own int->float64->float32
 			// chain does) both stay next to the real value
-			return expectation{mode: mExact, flts: []float64{float64(w32), float64(float32(w64))}}
+			return expectation{mode: mExact, flts: []float64{float64(w32), float64(float32(w64))}, rounded: acc32 != big.Exact}
 		}
 		if t.bits == 64 {
 			return expectation{mode: mExact, flts: []float64{n.f}, strict: true}
@@ -335,7 +342,7 @@ func expectNum(n num, t *tkind) expectation {
 			}
 			return errExp("below-minfloat32")
 		}
-		return expectation{mode: mExact, flts: []float64{float64(float32(n.f))}}
+		return expectation{mode: mExact, flts: []float64{float64(float32(n.f))}, rounded: float64(float32(n.f)) != n.f}
 	}
 	return expectation{mode: mUnpinned}
 }
